@@ -8,7 +8,7 @@
 use crate::common::Ctx;
 use crate::panicsafe::layouts;
 use micromap::Map;
-use support::elems::{Class, TK, TV};
+use support::elems::{z_set_eq, Class, TK, TV, Z};
 use support::fault::{self, Caught};
 use support::frame::{addr_of, Frame};
 use support::ledger;
@@ -232,6 +232,57 @@ impl<'a> Dj<'a> {
             }
         }
         self.cx.rep.hit(&format!("space:N={},u={},J<={}", N, u, maxj));
+    }
+
+    /// zero-sized key and value
+    pub fn zst<const N: usize>(&mut self) {
+        ledger::set_ctx(self.case_no, 0, "get_disjoint_mut(zero-sized)");
+        let prop = self.cx.prop.clone();
+        for all_equal in [true, false] {
+            z_set_eq(all_equal);
+            for fill in 0..=N {
+                if all_equal && fill > 1 {
+                    continue;
+                }
+                self.cx.rep.evaluations += 1;
+                let mut m: Map<Z, (), N> = Map::new();
+                for _ in 0..fill {
+                    m.insert(Z::new(), ());
+                }
+                let (z1, z2, z3) = (Z::new(), Z::new(), Z::new());
+                let present = all_equal && fill == 1;
+                let r0 = fault::catch(|| m.get_disjoint_mut::<Z, 0>([]).len());
+                let r1 = fault::catch(|| m.get_disjoint_mut([&z1]).map(|x| x.is_some()));
+                let r2 = fault::catch(|| m.get_disjoint_mut([&z1, &z2]).map(|x| x.is_some()));
+                let r3 = fault::catch(|| m.get_disjoint_mut([&z1, &z2, &z3]).map(|x| x.is_some()));
+                let d = format!("Map<Z,(),{}> keys-all-equal={} holding {}", N, all_equal, fill);
+                if !matches!(r0, Caught::Ok(0)) {
+                    v(&prop, "zero-sized", format!("{}: get_disjoint_mut([]) did not return an empty array", d));
+                }
+                if !matches!(r1, Caught::Ok([p]) if p == present) {
+                    v(&prop, "zero-sized", format!("{}: get_disjoint_mut([k]) is not [{}]", d, if present { "Some" } else { "None" }));
+                }
+                if all_equal {
+                    // the requested keys are equal: present => must panic; absent => either outcome
+                    if present && !r2.panicked() {
+                        v(&prop, "no-panic-on-equal-present-keys", format!("{}: two equal present keys returned", d));
+                    }
+                } else {
+                    // pairwise different, all absent
+                    if !matches!(r2, Caught::Ok([false, false])) || !matches!(r3, Caught::Ok([false, false, false])) {
+                        v(&prop, "zero-sized", format!("{}: pairwise different absent keys did not give all None", d));
+                    }
+                }
+                if m.len() != fill {
+                    v(&prop, "len-changed", format!("{}: len() changed", d));
+                }
+                self.cx.rep.hit("zst");
+            }
+        }
+        z_set_eq(true);
+        if ledger::viol_total() > 0 {
+            self.cx.rep.absorb_violations(&prop, &|| vec![format!("zero-sized get_disjoint_mut N={}", N)]);
+        }
     }
 
     /// large maps (N = 300, so slot indices beyond 255) and long tuples (J = 65, 70 > 64)
